@@ -631,6 +631,9 @@ class TorrentFileHybrid(MetaFile, ProgMixin):
         if os.path.isfile(self.path):
             info["file tree"] = {self.name: self._traverse(self.path)}
             info["length"] = os.path.getsize(self.path)
+            # a single file has no padding file: its last piece stays short
+            if self.hashes and self.hashes[-1].padding_file:
+                self.pieces[-1] = self.hashes[-1].short_piece
 
         else:
             info["file tree"] = self._traverse(self.path)
@@ -738,6 +741,9 @@ class TorrentAssembler(MetaFile, ProgMixin):
         if os.path.isfile(self.path):
             info["file tree"] = {self.name: self._traverse(self.path)}
             info["length"] = os.path.getsize(self.path)
+            # a single file has no padding file: its last piece stays short
+            if self.hybrid and self.hashes and self.hashes[-1].padding_file:
+                self.pieces[-20:] = self.hashes[-1].short_piece
 
         else:
             info["file tree"] = self._traverse(self.path)
@@ -785,6 +791,7 @@ class TorrentAssembler(MetaFile, ProgMixin):
                 self.piece_layers[hasher.root] = layers
             if self.hybrid and hasher.padding_file:
                 self.files.append(hasher.padding_file)
+            self.hashes.append(hasher)
 
             return {"": {"length": file_size, "pieces root": hasher.root}}
 
